@@ -156,7 +156,7 @@ pub fn rand_color(rng: &mut Rng) -> Color {
 
 pub const NUMFMTS: &[&str] = &[
     "General", "0", "0.00", "#,##0", "#,##0.00", "0%", "0.00%", "0.00E+00", "# ?/?", "mm-dd-yy", "d-mmm-yy", "h:mm:ss", "@", "yyyy-mm-dd", "0.000", "#,##0.0000", "\"$\"#,##0.00",
-    "[Red]0.00;[Blue]-0.00", "0.0\" <kg>\"", "\"a&b\"0", "#,##0 \"€\"", "[$-409]d-mmm-yyyy", "0.00_);(0.00)", "\"x'y\"0", "yyyy\"年\"m\"月\"",
+    "[Red]0.00;[Blue]-0.00", "0.0E+0", "0.0e+0", "\"KG\"0", "\"kg\"0", "0.0\" <kg>\"", "\"a&b\"0", "#,##0 \"€\"", "[$-409]d-mmm-yyyy", "0.00_);(0.00)", "\"x'y\"0", "yyyy\"年\"m\"月\"",
 ];
 
 pub fn rand_font(rng: &mut Rng) -> Font {
